@@ -884,7 +884,7 @@ pub fn run(tier: Tier, replay: Option<String>) -> i32 {
             }
         }
     }
-    let batches = tier.pick(4usize, 32);
+    let batches = tier.pick(4usize, 96);
     let per_batch = tier.pick(80usize, 100);
     let outcome = mutate::run_batches(&base.u, &bin, seed, 0x1717, batches, per_batch, mutate::ALL_KINDS, replay.as_deref(), |t, _batch| {
         let mut st = Stats { messages: 0, encodings: 0, reads: 0, not_covered: vec![], renamed: BTreeMap::new(), classes: BTreeMap::new(), distinct: BTreeSet::new(), samples: vec![] };
